@@ -357,6 +357,85 @@ inline void segMaskCase(Ctx& c)
     segMaskOne<ASAM::CMP::Packet>(c, "Packet");
 }
 
+// Packet::getRawCmpHeader / getRawMessageHeader: the 8 + 16 bytes they write into the caller's buffer follow the wire
+// layout for the packet's message type (reserved bytes zero), whatever the destination held before.
+inline void packetRawHeaders(Ctx& c, Rng& r, int iterations)
+{
+    using namespace ASAM::CMP;
+    for (int it = 0; it < iterations; ++it)
+    {
+        static const uint8_t mts[] = {wire::MT_DATA, wire::MT_STATUS, wire::MT_CONTROL, wire::MT_VENDOR, wire::MT_DATA, wire::MT_STATUS, 0x00, 0x07};
+        const uint8_t mt = mts[r.below(sizeof mts)];
+        const uint8_t pt = static_cast<uint8_t>(r.range(1, 255));
+        Bytes pl = r.bytes(r.chance(1, 20) ? r.pick<size_t>({0, 255, 256, 65535}) : r.below(40));
+        Packet p;
+        const uint8_t ver = r.byte(), stream = r.byte(), flags = r.byte();
+        const uint16_t dev = static_cast<uint16_t>(r.next()), seq = static_cast<uint16_t>(r.next()), vendor = static_cast<uint16_t>(r.next());
+        const uint64_t ts = r.next();
+        const uint32_t iface = static_cast<uint32_t>(r.next());
+        // the setters in a random order; the payload decides the message type
+        std::vector<int> order = {0, 1, 2, 3, 4, 5, 6, 7, 8};
+        for (size_t i = order.size(); i > 1; --i)
+            std::swap(order[i - 1], order[r.below(i)]);
+        for (int o : order)
+            switch (o)
+            {
+                case 0: p.setVersion(ver); break;
+                case 1: p.setDeviceId(dev); break;
+                case 2: p.setStreamId(stream); break;
+                case 3: p.setSequenceCounter(seq); break;
+                case 4: p.setTimestamp(ts); break;
+                case 5: p.setInterfaceId(iface); break;
+                case 6: p.setVendorId(vendor); break;
+                case 7: p.setCommonFlags(flags); break;
+                default: p.setPayload(Payload(PayloadType(static_cast<CmpHeader::MessageType>(mt), pt), pl.data(), pl.size())); break;
+            }
+        Bytes expect;
+        wire::put8(expect, ver);
+        wire::put8(expect, 0);
+        wire::put16(expect, dev);
+        wire::put8(expect, mt);
+        wire::put8(expect, stream);
+        wire::put16(expect, seq);
+        wire::put64(expect, ts);
+        if (mt == wire::MT_DATA)
+            wire::put32(expect, iface);
+        else if (mt == wire::MT_STATUS || mt == wire::MT_VENDOR)
+        {
+            wire::put16(expect, 0);
+            wire::put16(expect, vendor);
+        }
+        else
+            wire::put32(expect, 0);
+        wire::put8(expect, flags);
+        wire::put8(expect, pt);
+        wire::put16(expect, static_cast<uint16_t>(pl.size()));
+        for (int bg = 0; bg < 3; ++bg)
+        {
+            // destination: zero, all ones, the previous packet's bytes / random
+            Bytes dest(24, bg == 0 ? 0x00 : 0xFF);
+            if (bg == 2)
+                dest = r.bytes(24);
+            p.getRawCmpHeader(dest.data());
+            p.getRawMessageHeader(dest.data() + 8);
+            ++c.evaluations;
+            c.count("raw_header_images_checked");
+            if (dest != expect)
+            {
+                size_t k = 0;
+                while (k < 24 && dest[k] == expect[k])
+                    ++k;
+                char b[200];
+                snprintf(b, sizeof b, "byte %zu of the %s differs from the layout (message type 0x%02x, destination pre-filled with %s)", k < 8 ? k : k - 8,
+                         k < 8 ? "CMP header written by getRawCmpHeader" : "message header written by getRawMessageHeader", mt, bg == 0 ? "zeros" : (bg == 1 ? "ones" : "random bytes"));
+                c.violation(std::string("C12:packet-raw-header-differs-from-layout:") + (k < 8 ? "cmp" : "message"), std::string(b) + " written=" + hex(dest, 24) + " layout=" + hex(expect, 24),
+                            "Packet with message type " + std::to_string(mt));
+            }
+        }
+        c.feature("fields_exercised", std::string("Packet.rawHeaders(message type ") + std::to_string(mt) + ")");
+    }
+}
+
 struct Index
 {
     std::vector<std::pair<size_t, size_t>> fields;  // (class, field)
